@@ -314,8 +314,8 @@ func histString(h []Sym) string {
 
 // Run is the entry point.
 func Run(r *mon.Run) {
-	r.Rule = "gate mode: one broker per history; operations (attempts on in/out/io with related IDs, endings of each kind, holds inside the tear-down window, shutdown, probes) are executed one at a time, the verif hook parks every admission and release so the serialisation order is chosen by the harness; each decision is judged against a one-sided model (must-refuse), then probes check that I/O flows exactly to the live streams. A history is non-trivial if at least one attempt was decided in a state where some stream was attached, tearing down or the broker shut down; distinct = distinct (operations, decisions) traces. engine aged: the tear-down and wrong-ID refusals again after 17 s (thorough also 35 s and 65 s) of real time inside a stuck tear-down or half-attached state. engine lockq: attempts decided while others are already QUEUED for the broker: one stream (a half of an /io request that is being refused for the state of the previous shell - tearing down after an /io or a two-stream shell, a half-attached or fully attached shell whose streams have ended but not yet reached their release section - or an ID-less stranger) is kept inside the broker by a stalled operator terminal behind an exactly full operator channel (capacity 0/1/2/5); behind it queue, in a case-chosen order, the last stream(s) of the previous shell going for their release section and the undecided half/halves of the /io request, an operator line pending all the time; then the terminal resumes. Verdicts from the one event log: no half of an /io request is attached after the other half's refusal record (one attempt), a request whose first decision was a refusal gets no operator input and shows no output, returns, and the operator is told; the half decided with everything else parked must be refused; that holder and queue really overlapped is shown from the log (notice displayed as line capacity+2 or later after the stall, hook points passed before and decisions after the resume note) and is a floor. engine patience (runs alongside the others): every refusal reason (missing ID with nothing / something attached / during tear-down, wrong ID, second stream of a direction, unidirectional onto bidirectional, /io onto a half or full unidirectional shell with either half decided first, /io onto /io, /io or unidirectional onto a half-attached /io, unidirectional and /io during the tear-down of a two-stream or /io shell) decided while the operator's terminal takes nothing for 4 s, 8 s, 16 s and 31 s (thorough: also 65 s) of real time behind an exactly full operator channel (capacity 0/1/2/5/1024), in half of the states with the attached shell still printing; one world per (reason, stall), all at once; after the terminal resumes and a closing marker has gone through it: the attempt was attached in no direction, it has returned (bounded wait of 30 s after the resume), a red notice naming its address has been displayed, it got no operator input and none of its output was shown; that the refusal record precedes the resume note by at least the stall and the notice was handed over only after it (displayed as line capacity+2 or later) is a floor for every case. engines giveup and giveupq (run alongside the others): UNIDIRECTIONAL attempts (in and out; same ID as the attached stream = second stream completing a shell, other / related / empty ID, same direction, first stream of a new shell on a fresh broker or after a shell has gone, onto a half or full /io, inside a tear-down) that the broker gets to decide only AFTER the program's context - and with it the attempt's own - has been cancelled and BEFORE Do has reacted. giveup (gate mode): a directed or PRNG-drawn history builds the state, then one to three such attempts (context cancelled while parked at the admission point, or made with a context that is already done) are decided one at a time with an operator line pending, then the cancellation reaches Do (the shutdown operation) and the history goes on. giveupq (real lock queue): the broker is kept busy by an ID-less stranger stuck on its notice behind a stalled terminal and an exactly full operator channel (capacity 0/1/2/5); the attempt is queued for the broker's lock, or parked at the admission point, or not yet made, when the attempt's and Do's contexts are cancelled (in a case-chosen order, both while the broker is busy, so Do's reaction waits for the lock too), then the terminal resumes. Verdicts for both: no New connection record for such an attempt, nothing written to it, none of its output displayed, it returns; which of the attempt and Do gets the lock first decides nothing. That the cancellation fell between the stranger's record and the resume note, the attempt had passed its admission point before the note and was decided after it is shown from the log and is a floor, as are the number of attempts in states where nothing but the shutdown forbids them and (giveupq) of attempts that left a record, i.e. were taken up before Do had closed the door. stress mode: free-running goroutines with random yields at the hook points, boundary history checked with porcupine. engine http: the in-process server is started in eight configurations (default, -serve-files-from directory / single file, -callback-template, dozens of -callback-address, -ipv6-one-liners, explicit certificate cache, directory + template), the pairs of ID spellings are spread over them. engine cfg (runs alongside the others): CONFIGURATION MATRIX on the real binary on a pty - every documented option alone (-one-shell in two spellings, -serve-files-from directory / single file / empty / name with spaces at the edges / relative ../ symlinked spelling / given twice, -callback-template file / symlink / missing, -no-timestamps, -log, CURLREVSHELL_LOG, -ctrl-i file / directory / missing name with % and space, -callback-address one / 36, -ipv6-one-liners, -tls-certificate-cache inside the served directory / empty, -prompt, --flag=value spellings), six fixed pairs and pairs drawn by index with a seed-dependent offset; one session each, same oracle as in the default configuration: a shell one attaches on /i/one + /o/one; eight attempts that must be refused (other ID, same ID second stream, /io, on /i and /o; request bodies that have NOT ended: chunked with nothing / one / three chunks sent, or a declared length of 5000 / 70000 bytes of which a few dozen arrived, no Expect) are made, half of them (with -one-shell all of them) on TLS connections that were opened before the shell attached and speak only now; each must be answered completely or disconnected (bounded wait 20 s, the property is about the attempt being ended), the operator's terminal must show a notice naming its address, a typed probe line reaches only the shell, none of their output tokens is ever on the terminal. Then the shell ends; with -one-shell that is the program's shutdown, otherwise Ctrl+D is typed and Goodbye awaited; after an idle connection has been closed by the program (or 1 s) two more connections older than the shell make their FIRST attempt (/i/two + /o/two, or /io, with output): their output must never be displayed, a line typed after a second ready notice must not reach them, they must be ended"
-	r.Assumptions = []string{"the three verifPoint hook calls are outside b.mu, so parking there only stretches windows that exist", "attempts overlapping Do's cancellation may go either way (shutdown window) as far as their context is still live when they are decided (in bk.World an attempt's context does not hang off Do's)", "giveup/giveupq: in the program every request's context and the context Do runs under hang off the one program context; cancelling that one reaches the descendants one after the other in no particular order, and Do needs the broker's lock to react; the program is shutting down from the moment its context is cancelled, so an attempt whose own context is done because of that when the broker decides it is an attempt made while the program is shutting down, whether or not Do has reacted yet; the harness cancels the attempt's context and Do's separately (both orders) to stand for that one cancellation; a client that merely went away, with the program staying up, is NOT judged by these engines (every case shuts down); no notice is demanded (shutdown); the lock hand-over order between the attempt and Do's reaction is the runtime's business and no verdict depends on it", "porcupine v1.3.0", "lockq: between passing the admit/release hook point and its decision a stream does nothing but wait for the broker's lock; in which order the lock is handed to those waiting is the runtime's business and no verdict depends on it (a request both halves of which are attached after the tear-down completed is accepted as the new shell)", "cfg: the property does not depend on the configuration; with -one-shell the program is shutting down from the moment the one shell is gone (listener closed, HTTP server in its shutdown), without it once the terminal shows main's Goodbye after Ctrl+D at the prompt (a race-built binary lingers about a second after that with its goroutines still running); a connection older than the shell that the server closed before it said anything made no attempt (counted, not judged); a refusal notice is required during a -one-shell shell only if the attempt got an HTTP response; no notice is required for attempts during shutdown; the 1 s after 'Shell is gone'/Ctrl+D only chooses when the late attempts speak, no verdict is taken from a clock except the 20 s bounds on 'ended'", "patience: 'the operator is told' carries no time limit: a notice about a refusal may be late for as long as the terminal does not take output, but it must be on the terminal once everything sent before the refused Connect call returned has been displayed; a refused attempt need not return while the terminal is stalled (telling the operator is part of refusing), only after it resumes; time is consulted only to let the stall last and to count (floor) that it did"}
+	r.Rule = "gate mode: one broker per history; operations (attempts on in/out/io with related IDs, endings of each kind, holds inside the tear-down window, shutdown, probes) are executed one at a time, the verif hook parks every admission and release so the serialisation order is chosen by the harness; each decision is judged against a one-sided model (must-refuse), then probes check that I/O flows exactly to the live streams. A history is non-trivial if at least one attempt was decided in a state where some stream was attached, tearing down or the broker shut down; distinct = distinct (operations, decisions) traces. engine aged: the tear-down and wrong-ID refusals again after 17 s (thorough also 35 s and 65 s) of real time inside a stuck tear-down or half-attached state. engine lockq: attempts decided while others are already QUEUED for the broker: one stream (a half of an /io request that is being refused for the state of the previous shell - tearing down after an /io or a two-stream shell, a half-attached or fully attached shell whose streams have ended but not yet reached their release section - or an ID-less stranger) is kept inside the broker by a stalled operator terminal behind an exactly full operator channel (capacity 0/1/2/5); behind it queue, in a case-chosen order, the last stream(s) of the previous shell going for their release section and the undecided half/halves of the /io request, an operator line pending all the time; then the terminal resumes. Verdicts from the one event log: no half of an /io request is attached after the other half's refusal record (one attempt), a request whose first decision was a refusal gets no operator input and shows no output, returns, and the operator is told; the half decided with everything else parked must be refused; that holder and queue really overlapped is shown from the log (notice displayed as line capacity+2 or later after the stall, hook points passed before and decisions after the resume note) and is a floor. engine patience (runs alongside the others): every refusal reason (missing ID with nothing / something attached / during tear-down, wrong ID, second stream of a direction, unidirectional onto bidirectional, /io onto a half or full unidirectional shell with either half decided first, /io onto /io, /io or unidirectional onto a half-attached /io, unidirectional and /io during the tear-down of a two-stream or /io shell) decided while the operator's terminal takes nothing for 4 s, 8 s, 16 s and 31 s (thorough: also 65 s) of real time behind an exactly full operator channel (capacity 0/1/2/5/1024), in half of the states with the attached shell still printing; one world per (reason, stall), all at once; after the terminal resumes and a closing marker has gone through it: the attempt was attached in no direction, it has returned (bounded wait of 30 s after the resume), a red notice naming its address has been displayed, it got no operator input and none of its output was shown; that the refusal record precedes the resume note by at least the stall and the notice was handed over only after it (displayed as line capacity+2 or later) is a floor for every case. engines giveup and giveupq (run alongside the others): UNIDIRECTIONAL attempts (in and out; same ID as the attached stream = second stream completing a shell, other / related / empty ID, same direction, first stream of a new shell on a fresh broker or after a shell has gone, onto a half or full /io, inside a tear-down) that the broker gets to decide only AFTER the program's context - and with it the attempt's own - has been cancelled and BEFORE Do has reacted. giveup (gate mode): a directed or PRNG-drawn history builds the state, then one to three such attempts (context cancelled while parked at the admission point, or made with a context that is already done) are decided one at a time with an operator line pending, then the cancellation reaches Do (the shutdown operation) and the history goes on. giveupq (real lock queue): the broker is kept busy by an ID-less stranger stuck on its notice behind a stalled terminal and an exactly full operator channel (capacity 0/1/2/5); the attempt is queued for the broker's lock, or parked at the admission point, or not yet made, when the attempt's and Do's contexts are cancelled (in a case-chosen order, both while the broker is busy, so Do's reaction waits for the lock too), then the terminal resumes. Verdicts for both: no New connection record for such an attempt, nothing written to it, none of its output displayed, it returns; which of the attempt and Do gets the lock first decides nothing. That the cancellation fell between the stranger's record and the resume note, the attempt had passed its admission point before the note and was decided after it is shown from the log and is a floor, as are the number of attempts in states where nothing but the shutdown forbids them and (giveupq) of attempts that left a record, i.e. were taken up before Do had closed the door. stress mode: free-running goroutines with random yields at the hook points, boundary history checked with porcupine. engine http: the in-process server is started in eight configurations (default, -serve-files-from directory / single file, -callback-template, dozens of -callback-address, -ipv6-one-liners, explicit certificate cache, directory + template), the pairs of ID spellings are spread over them. engine cfg (runs alongside the others): CONFIGURATION MATRIX on the real binary on a pty - every documented option alone (-one-shell in two spellings, -serve-files-from directory / single file / empty / name with spaces at the edges / relative ../ symlinked spelling / given twice, -callback-template file / symlink / missing, -no-timestamps, -log, CURLREVSHELL_LOG, -ctrl-i file / directory / missing name with % and space, -callback-address one / 36, -ipv6-one-liners, -tls-certificate-cache inside the served directory / empty, -prompt, --flag=value spellings), six fixed pairs and pairs drawn by index with a seed-dependent offset; one session each, same oracle as in the default configuration: a shell one attaches on /i/one + /o/one; eight attempts that must be refused (other ID, same ID second stream, /io, on /i and /o; request bodies that have NOT ended: chunked with nothing / one / three chunks sent, or a declared length of 5000 / 70000 bytes of which a few dozen arrived, no Expect) are made, half of them (with -one-shell all of them) on TLS connections that were opened before the shell attached and speak only now; each must be answered completely or disconnected (bounded wait 20 s, the property is about the attempt being ended), the operator's terminal must show a notice naming its address, a typed probe line reaches only the shell, none of their output tokens is ever on the terminal. Then the shell ends; without -one-shell Ctrl+D is typed and Goodbye awaited (the program's shutdown), and two more connections older than the shell make their FIRST attempt (/i/two + /o/two, or /io, with output): their output must never be displayed, a line typed after a second ready notice must not reach them, they must be ended; with -one-shell the same attempts are made once an idle connection has been closed by the program (or after 1 s) and what becomes of them is COUNTED, not judged (see assumptions)"
+	r.Assumptions = []string{"the three verifPoint hook calls are outside b.mu, so parking there only stretches windows that exist", "attempts overlapping Do's cancellation may go either way (shutdown window) as far as their context is still live when they are decided (in bk.World an attempt's context does not hang off Do's)", "giveup/giveupq: in the program every request's context and the context Do runs under hang off the one program context; cancelling that one reaches the descendants one after the other in no particular order, and Do needs the broker's lock to react; the program is shutting down from the moment its context is cancelled, so an attempt whose own context is done because of that when the broker decides it is an attempt made while the program is shutting down, whether or not Do has reacted yet; the harness cancels the attempt's context and Do's separately (both orders) to stand for that one cancellation; a client that merely went away, with the program staying up, is NOT judged by these engines (every case shuts down); no notice is demanded (shutdown); the lock hand-over order between the attempt and Do's reaction is the runtime's business and no verdict depends on it", "porcupine v1.3.0", "lockq: between passing the admit/release hook point and its decision a stream does nothing but wait for the broker's lock; in which order the lock is handed to those waiting is the runtime's business and no verdict depends on it (a request both halves of which are attached after the tear-down completed is accepted as the new shell)", "cfg: the property does not depend on the configuration; the program is shutting down once the terminal shows main's Goodbye after Ctrl+D at the prompt; with -one-shell, after the one shell has gone the HTTP server winds down (since fix 0610514 it closes what is left), but the BROKER is told to shut down only when the server has finished - in the statement's terms ('histories of attempts, endings and shutdown serialised by the broker') an attempt that slips in on an older connection in between meets an idle broker, and whether it is admitted for the instant before its connection is closed is not promised either way (seen once in twelve seeds: a request served about 1 ms after 'Shell is gone', in the middle of http.Server.Close walking its connections); it is counted (cfg_one_shell_aftermath_*) and, like in C12's late engine, never judged (a race-built binary lingers about a second after that with its goroutines still running); a connection older than the shell that the server closed before it said anything made no attempt (counted, not judged); a refusal notice is required during a -one-shell shell only if the attempt got an HTTP response; no notice is required for attempts during shutdown; the 1 s after 'Shell is gone'/Ctrl+D only chooses when the late attempts speak, no verdict is taken from a clock except the 20 s bounds on 'ended'", "patience: 'the operator is told' carries no time limit: a notice about a refusal may be late for as long as the terminal does not take output, but it must be on the terminal once everything sent before the refused Connect call returned has been displayed; a refused attempt need not return while the terminal is stalled (telling the operator is part of refusing), only after it resumes; time is consulted only to let the stall last and to count (floor) that it did"}
 
 	// patience: refusals that sit out a terminal stalled for seconds; the cases do little but wait, so they
 	// run alongside everything else
